@@ -21,7 +21,8 @@ def main():
         tier = sys.argv[sys.argv.index("--tier") + 1]
         args.remove(tier)
     patch, ids = os.path.abspath(args[0]), args[1:]
-    name = hashlib.sha1(patch.encode()).hexdigest()[:8]
+    # unique per invocation: two workers may run the same patch at the same time
+    name = hashlib.sha1(("%s:%d" % (patch, os.getpid())).encode()).hexdigest()[:8]
     dst = os.path.join(V, "build", "mutants", name)
     shutil.rmtree(dst, ignore_errors=True)
     os.makedirs(os.path.dirname(dst), exist_ok=True)
